@@ -367,6 +367,11 @@ class FilesystemStorageBackend(StorageBackendBase):
             config["readonly"] = self.read_only
         if self.config_path is not None:
             config["path"] = self.config_path
+        if (
+            self.metadata_config_path is not None
+            and self.metadata_config_path != self.config_path
+        ):
+            config["metadata_path"] = self.metadata_config_path
         if self._memory_cache is not None:
             config["memory_cache_mb"] = (
                 self._memory_cache.memory_cache_bytes / 1024 / 1024
